@@ -12,7 +12,8 @@ Request (one line):
   structural model the theorems are about (`leaves`, `nn` depend on the dict order and exist only
   in `flat`).
 * queries: `path a b` · `rootpath x` · `dist c` · `linearise` · `subtree x` · `leavesunder x` ·
-  `subsize x` · `leaves` · `nn` · `start` · `updatepath` · `cachekeys c`
+  `subsize x` · `leaves` · `nn` · `start` · `updatepath` · `cachekeys c` · `segs` (the TDVP
+  segments `u>h …` followed by `last L`) · `nbrs x` (`neighbouring_nodes()`)
 * answer: the answers of the queries joined by ` | `; each is `ok` followed by identifiers
   (`k:v` for dict entries, `a>b` for pairs) or `err` where the Python raises.
 -/
@@ -73,6 +74,10 @@ def answerFlat (ft : FTree) (q : List String) : Option String :=
   | ["nn"] => some (showPairs ft.nearestNeighbours)
   | ["start"] => some (orErr (ft.findStart.map (fun s => showIds [s])))
   | ["updatepath"] => some (orErr (ft.updatePath.map showIds))
+  | ["segs"] => some (orErr (ft.segs.map fun r => showPairs r.1 ++ s!" last {r.2}"))
+  | ["nbrs", x] => do
+    let x ← x.toNat?
+    some (orErr ((ft.get? x).map fun n => showIds n.neighbours))
   | ["cachekeys", c] => do
     let c ← c.toNat?
     some (orErr ((ft.cacheKeys c).map showPairs))
@@ -101,6 +106,10 @@ def answerStruct (t : RTree) (q : List String) : Option String :=
     some (orErr ((t.subtreeSize x).map (fun n => showIds [n])))
   | ["start"] => some (orErr (t.findStart.map (fun s => showIds [s])))
   | ["updatepath"] => some (orErr (t.updatePath.map showIds))
+  | ["segs"] => some (orErr (t.segsOf?.map fun sg => showPairs sg ++ s!" last {t.lastOf}"))
+  | ["nbrs", x] => do
+    let x ← x.toNat?
+    some (if (t.ids).contains x then showIds (t.nbrsOf x) else "err")
   | ["cachekeys", c] => do
     let c ← c.toNat?
     some (orErr ((t.cacheKeys c).map showPairs))
